@@ -59,7 +59,7 @@ PSpec == TInit /\ [][PNext]_tvars
 FaultsOf(t) == t.faults                      \* <<op number, kind>> pairs armed by the harness
 CBegin == /\ Ev("Begin") /\ RBegin /\ conf' = TRUE
           /\ p' = ProgOf(T) /\ flt' = <<>> /\ hist' = <<>>
-          /\ pc' = 1 /\ n' = 0 /\ dirty' = [c \in Classes |-> 0] /\ took' = 0 /\ given' = 0 /\ seqKnown' = FALSE /\ done' = {}
+          /\ pc' = 1 /\ n' = 0 /\ dirty' = [c \in Classes |-> 0] /\ took' = 0 /\ given' = 0 /\ done' = {}
           /\ committed' = FALSE /\ ta' = FALSE /\ retried' = FALSE /\ relFault' = FALSE /\ prevSame' = TRUE /\ miss' = FALSE /\ mode' = "run" /\ pend' = "none" /\ reply' = "none"
 Matches(j, t) == M(Ops[j]) = t.m /\ C(Ops[j]) = t.c
 SkipTo(j) == \A q \in pc..(j - 1) : Skippable(q)
